@@ -1,6 +1,7 @@
 pub mod common;
 pub mod c01;
 pub mod c02;
+pub mod c03;
 pub mod c04;
 
 use crate::explore::{Limits, Violation};
@@ -21,6 +22,7 @@ pub fn sim_check(id: &str, tier: &str, _seed: i64) -> Option<SimCheck> {
     match id {
         "C01" => Some(c01::build(tier)),
         "C02" => Some(c02::build(tier)),
+        "C03" => Some(c03::build(tier)),
         "C04" => Some(c04::build(tier)),
         _ => None,
     }
